@@ -71,6 +71,13 @@ impl Property for C13 {
             Tier::Thorough => 25_000_000,
         }
     }
+    fn setup(&mut self) {
+        // brk requests far beyond memory: a real allocation attempt must fail fast instead of being overcommitted
+        unsafe {
+            let lim = libc::rlimit { rlim_cur: 16 << 30, rlim_max: 16 << 30 };
+            libc::setrlimit(libc::RLIMIT_AS, &lim);
+        }
+    }
     fn decode(&mut self, tape: &TapeVal) -> Case {
         let mut t = Tape::new(&tape[0]);
         let code_high = t.bool();
@@ -92,9 +99,12 @@ impl Property for C13 {
                         4 => cur + 1 + t.below(0x100),
                         5 => t.below(0x10_0000), // up to 1 MiB
                         6 => 0x1000 * t.below(80),
+                        _ if t.below(6) == 0 => t.pick(&[1u64 << 33, 1 << 40, 1 << 46, 1 << 62, u64::MAX - 0x10_0000]), // arbitrary sizes: far beyond any memory
                         _ => cur / 2,
                     };
-                    cur = off;
+                    if off < (1 << 32) {
+                        cur = off;
+                    }
                     Op::Set { off }
                 }
                 2 => Op::Store { pos: match t.below(4) { 0 => 0, 1 => cur.saturating_sub(1), _ => t.below(cur.max(1)) }, val: t.raw() as u8 },
@@ -174,10 +184,17 @@ impl Property for C13 {
                     fail(&mut out, &format!("set|{}", pi.signature()), format!("first call brk({:#x}) crashed: {}", p, r.short()));
                     return out;
                 }
-                // the heap is the area this call created
-                let created: Vec<(u64, u64)> = ax.verif_area_meta().iter().filter(|m| !before_areas.contains(&m.0) && m.1 > 0).map(|m| (m.0, m.1)).collect();
-                if let [(rb, _)] = created[..] {
-                    let in_the_way = ax.verif_area_meta().iter().any(|(st, _len, _, _)| *st > rb && *st < p);
+                // the heap is the area this call created (it may already be empty again: compare by count per start)
+                let after_meta = ax.verif_area_meta();
+                let created: Vec<(u64, u64)> = after_meta
+                    .iter()
+                    .filter(|m| after_meta.iter().filter(|x| x.0 == m.0).count() > before_areas.iter().filter(|x| **x == m.0).count())
+                    .map(|m| (m.0, m.1))
+                    .collect();
+                let unique_start = created.len() == 1 && after_meta.iter().filter(|x| x.0 == created[0].0).count() == 1;
+                if let ([(rb, rlen)], true) = (&created[..], unique_start) {
+                    let (rb, rlen) = (*rb, *rlen);
+                    let in_the_way = after_meta.iter().any(|(st, _len, _, _)| *st > rb && *st < p);
                     if p >= rb && !in_the_way {
                         classes.push("first-call-moves-the-break");
                         match r {
@@ -191,7 +208,15 @@ impl Property for C13 {
                                 return out;
                             }
                         }
+                    } else {
+                        // no verdict on this call; the heap is known now
+                        base = Some(rb);
+                        cur = rlen;
+                        known.resize(cur as usize, None);
                     }
+                } else if !created.is_empty() {
+                    // the heap shares its start with another area: which is which is left open
+                    return CaseOut::discard("heap-start-shared-with-another-area");
                 }
             }
         }
@@ -239,6 +264,27 @@ impl Property for C13 {
                             fail(&mut out, &format!("query|{}", if let Api::Panic(p) = &other { p.signature() } else { "failed".into() }), format!("{}: brk(0) answered {}", desc, other.short()));
                             return out;
                         }
+                    }
+                }
+                Op::Set { off } if *off >= (1 << 32) => {
+                    // a request far beyond any memory: the statement's "moves the break to p" cannot be
+                    // demanded literally; what can is that the call comes back — with p, with the old break
+                    // or with an error — and that the host survives (a crash is reported by the supervisor)
+                    let b = base.unwrap();
+                    let p = b.wrapping_add(*off);
+                    classes.push("request-far-beyond-memory");
+                    let r = syscall(&mut ax, p);
+                    match r {
+                        Api::Panic(pi) => {
+                            fail(&mut out, &format!("set|{}", pi.signature()), format!("{}: brk({:#x}) (heap base {:#x}) crashed: {} at {}", desc, p, b, pi.message, pi.location));
+                            return out;
+                        }
+                        Api::Ok(v) if v == p => {
+                            // accepted: the heap is now larger than this harness can mirror; the history ends
+                            classes.push("huge-break-accepted");
+                            break;
+                        }
+                        _ => {} // refused: nothing moved (the next query checks that)
                     }
                 }
                 Op::Set { off } => {
@@ -347,10 +393,10 @@ impl Property for C13 {
     }
 
     fn rule(&self) -> String {
-        "cases: histories of 2–29 operations (1/5 of them opened by brk(base+off) as the very first call, 1/5 with an empty area at a likely heap address) — brk(0), brk(base+off) with off from {0, ±1, page multiples, odd sizes, up to 1 MiB, shrink below, half}, guest byte stores and loads (MOV executed with step()) at the first byte, last byte and random offsets of the heap — under layouts with the code low or high, 0–2 extra low areas and an optional blocker area 1–64 pages above the heap base; break model: base = start of the heap area found at the first brk(0); brk(p≥base) with nothing in the way returns p and brk(0) then returns p; every byte in [base, break) is guest-readable/writable and keeps its value until the break goes below it; growth into an occupied range may fail but must not overlap; areas stay pairwise disjoint; non-trivial = a grow after a store and a shrink followed by a regrow; distinct by hash(history)".into()
+        "cases: histories of 2–29 operations (1/5 of them opened by brk(base+off) as the very first call, 1/5 with an empty area at a likely heap address) — brk(0), brk(base+off) with off from {0, ±1, page multiples, odd sizes, up to 1 MiB, shrink below, half, and requests far beyond memory (2^33 … 2^64): these must come back — moved, refused or failed — without crashing the host}, guest byte stores and loads (MOV executed with step()) at the first byte, last byte and random offsets of the heap — under layouts with the code low or high, 0–2 extra low areas and an optional blocker area 1–64 pages above the heap base; break model: base = start of the heap area found at the first brk(0); brk(p≥base) with nothing in the way returns p and brk(0) then returns p; every byte in [base, break) is guest-readable/writable and keeps its value until the break goes below it; growth into an occupied range may fail but must not overlap; areas stay pairwise disjoint; non-trivial = a grow after a store and a shrink followed by a regrow; distinct by hash(history)".into()
     }
     fn required_classes(&self, _tier: Tier) -> Vec<String> {
-        ["grow-after-store", "shrink-regrow", "load-of-known-byte", "growth-into-occupied-range"].iter().map(|s| s.to_string()).collect()
+        ["grow-after-store", "shrink-regrow", "load-of-known-byte", "growth-into-occupied-range", "request-far-beyond-memory", "first-call-moves-the-break"].iter().map(|s| s.to_string()).collect()
     }
     fn assumptions(&self) -> Vec<String> {
         vec!["the heap base is the start of the area that ends at the break reported by the first brk(0) (read from the area list); brk(p) for p below it is outside the stated domain and not generated".into(), "bytes that left the heap by a shrink are unspecified after a regrow".into()]
